@@ -1675,6 +1675,10 @@ var degenerate = []string{
 	"BA_DEF_ \"A\" FLOAT 10 0;\n", "BA_DEF_ \"A\" INT 10 0;\n", "BA_DEF_ \"A\" HEX 10 0;\n", "BA_DEF_ \"A\" FLOAT 0 10;\n",
 	"BA_DEF_ \"A\" FLOAT 10.5 0;\nBA_DEF_ \"B\" FLOAT 1 1;\nBA_DEF_ \"C\" FLOAT 2 1;\n",
 	"VAL_TABLE_ T 0 \"off\" 1 \"On\" ;\n", "VAL_TABLE_ T ;\n", "VAL_ 1 S ;\n",
+	// empty texts as the FIRST thing a name predicate sees in a fresh process (the real binary lints these files one
+	// by one): an empty description is CamelCase by the rule (no character violates it); seeded change C18-w10-m2
+	// (a one-entry memo whose zero value answers "" with false)
+	"VAL_TABLE_ T 0 \"\" 1 \"On\" ;\n", "VAL_ 1 S 0 \"\" ;\n", "VAL_TABLE_ T 0 \"\" ;\nVAL_TABLE_ U 0 \"\" 1 \"\" ;\n",
 }
 
 // ---------------------------------------------------------------------------- boundary files
